@@ -10,3 +10,5 @@ import Desert.Props.C11
 #print axioms C11.spec_varI32_roundtrip
 #print axioms C11.spec_zigzag_bijective
 #print axioms C11.spec_uv_length
+#print axioms C11.layers_agree_u32
+#print axioms C11.layers_agree_i32
